@@ -42,7 +42,7 @@ Definition unlock (s : fstate) (k : nat) : nat -> option nat := fset (f_lock s) 
 (* build the endpoint object: dial ok, drain ticket acquired, generation captured; not yet in the pool *)
 Definition build_endpoint (p : pstate) (k d g : nat) : pstate * nat :=
   let e := length (p_eps p) in
-  let u := mkU k d false 0 false false 0 false (p_epoch p d) false g (Some g) false [] in
+  let u := mkU k d false 0 false false 0 false (S (S (p_epoch p d))) false g (Some g) false [] in
   (mkP (p_pool p) (p_eps p ++ [u]) (p_handles p ++ [e]) (p_epoch p) (S (p_dials p)) (p_tr p) (p_kdel p)
        (fset (p_drainc p) g (S (p_drainc p g))) (p_now p), e).
 
@@ -150,6 +150,14 @@ Definition fstep (s : fstate) (l : flabel) : fstate :=
   match l with
   | FThr i => fstep_thr s i
   | FOp (PGoc _ _ _ _) => s
+  | FOp (PWrite h _ as o) | FOp (PTrack h _ as o) =>
+      (* only a caller that was handed the endpoint can write to it / register tuples on it *)
+      match nth_error (p_handles (f_p s)) h with
+      | Some e => if existsb (fun x => snd x =? e) (f_hand s)
+                  then mkF (fst (pstep (f_p s) o)) (f_thr s) (f_lock s) (f_hand s) (f_inval s)
+                  else s
+      | None => s
+      end
   | FOp o =>
       let inv := match o with PInval d => f_inval s ++ inval_hits (f_p s) d | _ => f_inval s end in
       mkF (fst (pstep (f_p s) o)) (f_thr s) (f_lock s) (f_hand s) inv
